@@ -25,10 +25,13 @@ o(const char *fmt, ...)
 
 static long walk = -1;
 static int  step;
+static uint64_t na0; // allocations before the current command
 static void
 emit(void)
 {
-	printf("R %ld %d %s\n", walk, step, ob);
+	// na: allocations made by this command; ff: the armed allocation failure (" F<k>" on the command line) fired
+	printf("R %ld %d {\"na\":%llu,\"ff\":%d,%s\n", walk, step,
+	    (unsigned long long) (acct_total_allocs() - na0), acct_fail_fired(), ob + 1);
 	fflush(stdout);
 	on    = 0;
 	ob[0] = 0;
@@ -599,6 +602,11 @@ main(int argc, char **argv)
 			continue;
 		}
 		snprintf(cur, sizeof(cur), "%s", obj);
+		na0 = acct_total_allocs();
+		{
+			char *f = strstr(line, " F");
+			acct_fail_at(f != NULL ? (uint64_t) atoi(f + 2) : 0);
+		}
 		if (!strcmp(obj, "lmq")) {
 			do_lmq(act, a1);
 		} else if (!strcmp(obj, "mq")) {
@@ -611,6 +619,7 @@ main(int argc, char **argv)
 			fprintf(stderr, "bad object %s\n", obj);
 			return 3;
 		}
+		acct_fail_at(0);
 	}
 	nng_fini();
 	if (acct_live_blocks() != 0) {
